@@ -374,6 +374,23 @@ func (e *Exec) walkObjs(v Value, f func(*Obj), seen map[*Cell]bool) {
 	case *MapV:
 		if x.m != nil {
 			f(x.m.obj)
+			for _, k := range x.m.keys {
+				e.walkObjs(k, f, seen)
+			}
+			for _, c := range x.m.vals {
+				if !seen[c] {
+					seen[c] = true
+					e.walkCell(c, f, seen)
+				}
+			}
+		}
+	case *FuncV:
+		// a closure reaches the variables it captured
+		for _, b := range x.bind {
+			e.walkObjs(b, f, seen)
+		}
+		if x.recv != nil {
+			e.walkObjs(x.recv, f, seen)
 		}
 	}
 }
